@@ -956,6 +956,18 @@ class Run:
         self.sim.count("sched.thread-switches", sched.switches)
 
     def run_async(self, ops):
+        ops = list(ops)
+        cut = self.plan.get("second_loop_at")
+        if cut and 0 < cut < len(ops):
+            # the application runs two event loops one after the other (asyncio.run twice) and keeps
+            # its sessions: nothing of a session may be tied to the loop of its earlier calls
+            self.sim.count("probe.second-event-loop")
+            self._run_async_phase(ops[:cut])
+            self._run_async_phase(ops[cut:])
+        else:
+            self._run_async_phase(ops)
+
+    def _run_async_phase(self, ops):
         order_rng = random.Random(self.plan.get("ready_order_seed", 0))
         loop = SimLoop(self.sim, order_rng)
         try:
